@@ -863,6 +863,63 @@ def r18_10(rep: Report) -> None:
     rep.extra['classes_with_carried_state'] = n
 
 
+def r18_11(rep: Report) -> None:
+    """R18.11  a gap in a SegmentTimeline is an `S@t` that differs from the running end of the previous entry; the
+    validator finds it because the segments it then asks for carry other decode times.  That needs every
+    `S@t` to be honoured: on every path through the loop over the S elements on which `t is not None` can
+    hold, the running start is set from `t` before the entry is recorded."""
+    from ..flow import Disjunctive, Flow
+    from ..pathcond import PathCond, f_and, f_not, satisfiable, show as pc_show
+    rel = f'{V}/segment_timeline.py'
+    tree = rep.repo.tree(rel)
+    cls = need(find_class(tree, 'SegmentTimeline'), 'SegmentTimeline')
+    fn = need(find_func(cls, '__init__'), 'SegmentTimeline.__init__')
+    construct = f'{rel}::SegmentTimeline.__init__'
+    tvars = {a.targets[0].id for a in ast.walk(fn) if isinstance(a, ast.Assign) and isinstance(a.targets[0], ast.Name)
+             and isinstance(a.value, ast.Call) and (call_name(a.value) or '').endswith('.get')
+             and a.value.args and isinstance(a.value.args[0], ast.Constant) and a.value.args[0].value == 't'}
+    loop_vars = {x.id for lp in ast.walk(fn) if isinstance(lp, ast.For) for x in ast.walk(lp.target) if isinstance(x, ast.Name)}
+    own = {a.targets[0].id for a in ast.walk(fn) if isinstance(a, ast.Assign) and isinstance(a.targets[0], ast.Name)
+           and a.targets[0].id in tvars and isinstance(a.value, ast.Call) and isinstance(a.value.func, ast.Attribute)
+           and isinstance(a.value.func.value, ast.Name) and a.value.func.value.id in loop_vars}
+    if not own:
+        raise AnalysisError("SegmentTimeline.__init__: no `<x> = <S element of the loop>.get('t')` found")
+    tvar = sorted(own)[0]
+
+    def upd(st, facts):
+        facts = set(facts)
+        if isinstance(st, (ast.Assign, ast.AnnAssign)) and getattr(st, 'value', None) is not None:
+            tg = st.targets[0] if isinstance(st, ast.Assign) else st.target
+            if isinstance(tg, ast.Name):
+                if tg.id == tvar:
+                    facts = {f for f in facts if not f.startswith('from-t:')}
+                elif any(isinstance(x, ast.Name) and x.id == tvar for x in ast.walk(st.value)):
+                    facts.add(f'from-t:{tg.id}')
+        return facts
+    sites: list = []
+
+    def on_stmt(st, states):
+        if isinstance(st, (ast.If, ast.While, ast.For, ast.With, ast.Try)):
+            return
+        for c in ast.walk(st):
+            if isinstance(c, ast.Call) and (call_name(c) or '').endswith('SegmentEntry') and c.args and isinstance(c.args[0], ast.Name):
+                for x in states:
+                    sites.append((c, c.args[0].id, x))
+    Flow(Disjunctive(PathCond(upd=upd), cap=256), on_stmt=on_stmt).run(fn, [PathCond.initial()])
+    if not sites:
+        raise AnalysisError('SegmentTimeline.__init__: no SegmentEntry(<start>, ..) construction reached')
+    given = f_not(('atom', f'{tvar} is None'))
+    bad = [(c, v, x) for c, v, x in sites if f'from-t:{v}' not in x[2] and satisfiable(f_and(x[0], given))]
+    if not bad:
+        rep.ok('R18.11', construct, 'every S@t sets the running start', f'{len(sites)} path state(s) at the entry')
+    else:
+        c, v, x = bad[0]
+        rep.fail('R18.11', construct, 'every S@t sets the running start',
+                 f'an entry is recorded with `{v}` on a path where `{tvar}` (S@t) can be present but `{v}` was not set from it '
+                 f'(path: {pc_show(x[0])[:140]}): a `t` on a later S element - the only way a manifest expresses a gap - is '
+                 'ignored, the validator asks for contiguous segments and reports nothing', c)
+
+
 def analyse(rep: Report) -> None:
     rep.explanation = (
         'Detection side of C18 as an inventory: for each corruption kind of the property the '
@@ -880,6 +937,7 @@ def analyse(rep: Report) -> None:
     rep.rule('R18.8', 'every class listed by a children() method defines what the tree walkers call', floor=6)
     rep.rule('R18.9', 'the expectation chained from one media segment to the next is renewed on every iteration', floor=1)
     rep.rule('R18.10', 'an element\'s own checks are not switched off by state carried over a manifest refresh', floor=1)
+    rep.rule('R18.11', 'every S@t of a SegmentTimeline sets the running start (a gap is visible)', floor=1)
     r18_1_2(rep)
     r18_3(rep)
     r18_4(rep)
@@ -889,3 +947,4 @@ def analyse(rep: Report) -> None:
     r18_8(rep)
     r18_9(rep)
     r18_10(rep)
+    r18_11(rep)
